@@ -1,6 +1,7 @@
 #!/venv/bin/python
 import sys, json
-sys.path.insert(0, "/verif")
+import os
+sys.path.insert(0, os.path.dirname(os.path.dirname(os.path.abspath(__file__))))
 from verif.selftest import mutants
 props = sys.argv[1:] or ["C%02d" % i for i in range(1, 21)]
 for p in props:
